@@ -38,7 +38,7 @@ def run_case(rs, ctx):
         gen.gen_ops(rs, cfg, sh, 1, ["fit"], train_rows=(4, 16)) + \
         gen.gen_ops(rs, cfg, sh, int(rs.integers(8, 21)), KINDS, train_rows=(1, 8),
                     sizes=(1, 2, 3, 5, 8) if rs.integers(4) else (1, 2, 17, 33, 70, 130))
-    if ctx.index % 96 == 54 and p == "clusters" and l in ("eg", "ucb", "rnd", "sm", "pop", "ts"):
+    if ctx.index % 96 in (4, 52) and p == "clusters" and l in ("eg", "ucb", "rnd", "sm", "pop", "ts"):
         # one very long batch (more rows than any internal per-task limit): every row must come back, in order
         ops.append({"op": "predict", "X": gen.gen_contexts(rs, 32768 + int(rs.integers(1, 40000)), nf)})
         ctx.count("very_long_queries")
